@@ -182,7 +182,8 @@ func (m *Muxer) WriteData(d *MuxerData) (int, error) {
 	bytesWritten += n
 
 	payloadStart := true
-	writeAf := d.AdaptationField != nil
+	// A one byte stuffing adaptation field carries nothing: stuffing is recomputed below
+	writeAf := d.AdaptationField != nil && !d.AdaptationField.IsOneByteStuffing
 	payloadBytesWritten := 0
 	for payloadBytesWritten < len(d.PES.Data) {
 		pktLen := 1 + mpegTsPacketHeaderSize // sync byte + header
